@@ -2,7 +2,7 @@
 from ..core import norm, short, walk, callee, peel, mir_callee, pat_bindings
 from ..engines import sched, schednorm, hirq, mustcall as mc, reach
 from .. import tables
-from . import c01, c20
+from . import c01, c20, c10
 
 KZG = '<midnight_proofs::poly::kzg::KZGCommitmentScheme as midnight_proofs::poly::commitment::PolynomialCommitmentScheme>::'
 OPEN, PREP = KZG + 'multi_open', KZG + 'multi_prepare'
@@ -15,6 +15,7 @@ def run(ck):
     w = ck.world()
     r4_identity(ck, w)
     r5_point_domains(ck, w)
+    c10.eval_ops(ck, w, 'C14', 'C14.N1')
     ck.explanation = (
         'Static rules for the multi-opening argument: (R1) multi_open (write→read) = multi_prepare = in-circuit multi_prepare as transcript schedules '
         '(x1, x2, f commitment, x3, one evaluation per point set, x4, pi); (R2) both copies of construct_intermediate_sets have a reachable duplicate-query '
